@@ -15,3 +15,4 @@ def run(ck):
     glyph.r7_neighbour_in_probe_direction(ck, P)
     glyph.r8_thaw_thresholds(ck, P)
     glyph.r9_copy_in_source_format_keeps_palette(ck, P)
+    glyph.r10_tail_taken_only_from_nonempty_list(ck, P)
